@@ -35,7 +35,27 @@ pub fn main(tier: &str, seed: u64, n_override: Option<u64>) {
         let mut cross = (p2 - p1).cross(&(p3 - p1)).norm();
         if kind == 1 { expect = "collinear_source"; }
         if kind == 3 { // perturb beyond the 5 mm tolerance along the p1-p2 direction
-            let dir = (q2 - q1).normalize(); q2 = q2 + dir * 0.0065; expect = "not_isometry";
+            // ... of one side only, a different side in turn: 1-2 (stretch q2 away from q1), 1-3 (swing q1 about q2, which keeps 1-2),
+            // 2-3 (swing q3 about q1, which keeps 1-3)
+            let d = |a: &Point3<f64>, b: &Point3<f64>| (a - b).norm();
+            match (idx / 8) % 3 {
+                0 => { let dir = (q2 - q1).normalize(); q2 = q2 + dir * 0.0065; }
+                1 => {
+                    let ax = nalgebra::Unit::new_normalize((q1 - q2).cross(&(q3 - q2)));
+                    let before = d(&q1, &q3);
+                    let mut ang = 0.01; let mut cand = q1;
+                    for _ in 0..12 { cand = q2 + nalgebra::UnitQuaternion::from_axis_angle(&ax, ang) * (q1 - q2); if (d(&cand, &q3) - before).abs() > 0.0065 { break; } ang *= 1.6; }
+                    if (d(&cand, &q3) - before).abs() > 0.0065 { q1 = cand; } else { let dir = (q2 - q1).normalize(); q2 = q2 + dir * 0.0065; }
+                }
+                _ => {
+                    let ax = nalgebra::Unit::new_normalize((q2 - q1).cross(&(q3 - q1)));
+                    let before = d(&q2, &q3);
+                    let mut ang = 0.01; let mut cand = q3;
+                    for _ in 0..12 { cand = q1 + nalgebra::UnitQuaternion::from_axis_angle(&ax, ang) * (q3 - q1); if (d(&q2, &cand) - before).abs() > 0.0065 { break; } ang *= 1.6; }
+                    if (d(&q2, &cand) - before).abs() > 0.0065 { q3 = cand; } else { let dir = (q2 - q1).normalize(); q2 = q2 + dir * 0.0065; }
+                }
+            }
+            expect = "not_isometry";
         }
         if kind == 4 { // perturb below the tolerance
             let dir = (q3 - q1).normalize(); q3 = q3 + dir * 0.003; expect = "ok_perturbed";
@@ -55,14 +75,19 @@ pub fn main(tier: &str, seed: u64, n_override: Option<u64>) {
             let r = random_robot(&mut rng, idx, false, None);
             let j = origin_joints(&mut rng, &r, PoseKind::Reachable);
             let fr = Frame { robot: Arc::new(r.bare()), frame: m };
-            let prev = j;
+            // `previous` is its own argument: equal to the joints, near them, or somewhere else (another branch, another turn)
+            let prev: rs_opw_kinematics::kinematic_traits::Joints = match rng.below(3) { 0 => j, 1 => std::array::from_fn(|i| j[i] + rng.range(-0.3, 0.3)), _ => std::array::from_fn(|_| rng.range(-6.0, 6.0)) };
             let (sols, pose) = fr.forward_transformed(&j, &prev);
+            // = the wrapped robot's continuation from `previous` at the transformed pose
+            let expect = r.bare().inverse_continuing(&(m * pose_of(&r, &j)), &prev);
             let want = m * pose_of(&r, &j);
             let mut direct = "ok"; let mut class = "";
             if (pose.translation.vector - want.translation.vector).norm() > 1e-9 || pose.rotation.angle_to(&want.rotation) > 1e-9 { direct = "fail"; class = "C17.transformed_pose_is_not_frame_times_forward"; }
             for s in &sols { let (ok, _, _) = realises(&r, &pose, s, false); if !ok && direct == "ok" { direct = "fail"; class = "C17.transformed_solution_does_not_realise_pose"; } }
             let dist = |s: &[f64; 6]| (0..6).map(|i| (s[i] - prev[i]).abs()).sum::<f64>();
             for w in sols.windows(2) { if dist(&w[0]) > dist(&w[1]) + 1e-9 && direct == "ok" { direct = "fail"; class = "C17.transformed_solutions_not_ordered"; } }
+            let same = expect.len() == sols.len() && expect.iter().zip(sols.iter()).all(|(a, b)| (0..6).all(|i| (a[i] - b[i]).abs() <= 1e-9));
+            if !same && direct == "ok" { direct = "fail"; class = "C17.transformed_solutions_are_not_the_continuation_from_previous"; }
             println!("{}", Obj::new().s("prop", "C17").s("what", "forward_transformed").i("case", idx as i64).i("nsol", sols.len() as i64).s("direct", direct).s("class", class).done());
             continue;
         }
